@@ -91,7 +91,7 @@ def genToc (mode framerate bandwidth channels : Int) : Nat :=
 
 /-! ### frame_size_select -/
 
-/-- `frame_size_select` (opus_encoder.c:768-791); `-1` = rejected. -/
+/-- `frame_size_select` (opus_encoder.c:768-796); `-1` = rejected. -/
 def frameSizeSelect (frameSize variableDuration fs : Int) : Int :=
   if frameSize < fs / 400 then -1
   else
@@ -106,6 +106,8 @@ def frameSizeSelect (frameSize variableDuration fs : Int) : Int :=
     | none => -1
     | some newSize =>
       if newSize > frameSize then -1
+      -- nothing above 120 ms is an Opus frame size (fix 212cbc41; keeps the products below inside `int`)
+      else if newSize > 6 * fs / 50 then -1
       else if 400 * newSize ≠ fs ∧ 200 * newSize ≠ fs ∧ 100 * newSize ≠ fs ∧
               50 * newSize ≠ fs ∧ 25 * newSize ≠ fs ∧ 50 * newSize ≠ 3 * fs ∧
               50 * newSize ≠ 4 * fs ∧ 50 * newSize ≠ 5 * fs ∧ 50 * newSize ≠ 6 * fs then -1
